@@ -16,7 +16,7 @@ pub fn prop() -> Prop {
     Prop {
         id: "C14",
         level: "exploration",
-        rule: "complete tables: each of the 7 builtins x a 70-value alphabet covering every type (null, both bools, boundary integers, floats incl. signed zero, tiny, huge, infinities and NaN, numeric / padded / signed / exponent / empty / non-ASCII text, empty and nested arrays, named and anonymous functions) with 1 argument; x a 12-value subset squared and cubed with 2 and 3 arguments; with no argument; identity t(v) for v of type t; round trips int(string(i)) for every i of the integer lattice and float(string(x)) for every float of the alphabet and every lattice integer below 2^53; magnitude ladders (floats m x 10^k for |k| <= 40 and m x 2^k for |k| <= 70, integers 10^k and neighbours, digit strings of 1..24 digits, print with N placeholders for N up to 253 and N-1 / N / N+1 arguments); print with every format string of <= 4 pieces over {{}, {, }, a, space, é, €, 😀} x 0..4 further arguments drawn from 5 values, and with a first argument of every type. Oracle: the reference functions of the model (U11 leniency for non-canonical number spellings). Non-trivial = the model defines the outcome; distinct = distinct texts",
+        rule: "complete tables: each of the 7 builtins x a 70-value alphabet covering every type (null, both bools, boundary integers, floats incl. signed zero, tiny, huge, infinities and NaN, numeric / padded / signed / exponent / empty / non-ASCII text, empty and nested arrays, named and anonymous functions) with 1 argument; x a 12-value subset squared and cubed with 2 and 3 arguments; with no argument; identity t(v) for v of type t; round trips int(string(i)) for every i of the integer lattice and float(string(x)) for every float of the alphabet and every lattice integer below 2^53; every decimal text i.ff (i <= 20), d.fff, and k/100, k*1.1 (k <= 2000) through string() and back; magnitude ladders (floats m x 10^k for |k| <= 40 and m x 2^k for |k| <= 70, integers 10^k and neighbours, digit strings of 1..24 digits, print with N placeholders for N up to 253 and N-1 / N / N+1 arguments); print with every format string of <= 4 pieces over {{}, {, }, a, space, é, €, 😀} x 0..4 further arguments drawn from 5 values, and with a first argument of every type. Oracle: the reference functions of the model (U11 leniency for non-canonical number spellings). Non-trivial = the model defines the outcome; distinct = distinct texts",
         assumptions: &["reference builtins of refint.rs (DESIGN 4.2 Builtins)", "U11: non-canonical number spellings (padding, +5, 1e5, inf, nan) are not compared"],
         run,
         replay,
@@ -222,6 +222,26 @@ fn run(sh: &mut Shard) {
             case(sh, "magnitude", vec![es(calln("float", vec![string(&format!("{digits}.5"))]))]);
         }
     }
+    // every short decimal text: i.ff for i <= 20, d.fff, dd.f, and k/100 as a float through string() and back
+    for i in 0..=20u32 {
+        for f in 0..100u32 {
+            let t = format!("{i}.{f:02}");
+            case(sh, "decimal-text", vec![es(infix(calln("float", vec![string(&t)]), Operator::Eq, flt(t.parse().unwrap())))]);
+            case(sh, "decimal-text", vec![es(calln("string", vec![calln("float", vec![string(&format!("-{t}"))])]))]);
+        }
+    }
+    for d in 0..10u32 {
+        for f in 0..1000u32 {
+            let t = format!("{d}.{f:03}");
+            case(sh, "decimal-text", vec![es(infix(calln("float", vec![string(&t)]), Operator::Eq, flt(t.parse().unwrap())))]);
+        }
+    }
+    for k in 0..=2000u32 {
+        let x = k as f64 / 100.0;
+        case(sh, "decimal-text", vec![es(infix(calln("float", vec![calln("string", vec![float_expr(x)])]), Operator::Eq, float_expr(x)))]);
+        let y = k as f64 * 1.1;
+        case(sh, "decimal-text", vec![es(infix(calln("float", vec![calln("string", vec![float_expr(y)])]), Operator::Eq, float_expr(y)))]);
+    }
     // print with N placeholders and N, N-1, N+1 arguments (the call instruction carries at most 255)
     for n in [1usize, 2, 3, 5, 7, 8, 9, 15, 16, 17, 31, 32, 33, 63, 64, 65, 127, 128, 129, 200, 253] {
         for delta in [-1i64, 0, 1] {
@@ -245,7 +265,7 @@ fn replay(sh: &mut Shard, case: &Value) {
 }
 
 fn vacuity(m: &Merged) -> Option<String> {
-    for fam in ["magnitude", "arity-0", "unary", "idempotent", "binary", "ternary", "roundtrip-int", "roundtrip-float", "print-format", "print-first"] {
+    for fam in ["magnitude", "decimal-text", "arity-0", "unary", "idempotent", "binary", "ternary", "roundtrip-int", "roundtrip-float", "print-format", "print-first"] {
         if m.counters.get(&format!("family:{fam}")).copied().unwrap_or(0) == 0 {
             return Some(format!("family {fam} produced no case"));
         }
